@@ -517,6 +517,18 @@ func AlphaFamilies(tier string) []AlphaSpec {
 			out = append(out, FanUniverse(g))
 		}
 	}
+	// nodes that were once completely full and then shrank by deletions all the way into the next smaller class (their dead
+	// lanes and slots hold stale copies of the former largest entries); the closure then deletes further and inserts in between
+	for _, f := range []FanSpec{
+		{Name: "FAN16FULL@4", Hold: 4, Extra: 12, Present: 3, Absent: 3},
+		{Name: "FAN48FULL@13", Hold: 13, Extra: 35, Present: 3, Absent: 3},
+	} {
+		out = append(out, FanUniverse(f))
+		g := f
+		g.Order = 1
+		g.Name += "/ord1"
+		out = append(out, FanUniverse(g))
+	}
 	// a stored key that is a proper prefix of all siblings: its terminator is the 0x00 child of the big node
 	for _, f := range []FanSpec{
 		{Name: "STEM16@15", Hold: 15, Present: 2, Absent: 2, Path: "stem", Stem: true},
